@@ -3,6 +3,7 @@ package resolver
 import (
 	"context"
 	"os"
+	"sync/atomic"
 	"time"
 
 	"github.com/miekg/dns"
@@ -48,6 +49,36 @@ const contextKeyNSList contextKey = 1 << 16
 // CNAME/DNAME chains; 10 is stricter without impacting real-world use
 // (legitimate DNAME chains are nearly always length 1).
 const maxDnameDepth = 10
+
+// maxNSAddrLookups caps the name-server address lookups one request tree
+// may start, summed over every nesting level. Each lookup is an internal
+// query bounded in DEPTH by the queryer's recursion cap, but a delegation
+// tries every one of its name-server names, so on a tree of glueless
+// delegations whose lookups fail the fan-out and the depth multiply
+// (hosts ^ levels); with the firewall off or in shadow mode only the
+// request deadline ended it.
+const maxNSAddrLookups = 64
+
+type nsAddrBudgetKeyType struct{}
+
+var nsAddrBudgetKey = &nsAddrBudgetKeyType{}
+
+// withNSAddrBudget pins the request tree's lookup counter on first use.
+func withNSAddrBudget(ctx context.Context) context.Context {
+	if _, ok := ctx.Value(nsAddrBudgetKey).(*atomic.Int32); ok {
+		return ctx
+	}
+	left := new(atomic.Int32)
+	left.Store(maxNSAddrLookups)
+	return context.WithValue(ctx, nsAddrBudgetKey, left)
+}
+
+// takeNSAddrLookup debits one lookup; false once the tree has used them up.
+// A context without a counter (bare test resolvers) is not limited.
+func takeNSAddrLookup(ctx context.Context) bool {
+	left, ok := ctx.Value(nsAddrBudgetKey).(*atomic.Int32)
+	return !ok || left.Add(-1) >= 0
+}
 
 // debugns is initialized once at startup.
 var debugns = func() bool {
